@@ -78,7 +78,7 @@ func (p *c19) RandomRuns(tier string) int {
 	if tier == "thorough" {
 		return 600000
 	}
-	return 14000
+	return 8000
 }
 
 type c19Case struct {
